@@ -299,6 +299,16 @@ def run_rules(h, res, known, rules, lsets, shard, *, prop, macros=None, doc_extr
 def replay_case(case, h, want=("verdict",)):
     """Generic replay of a case produced by run_rules."""
     doc = case["rule"]
+    # The explorers write an item that occurs twice as ONE object (YAML then emits an anchor and an alias); the JSON replay
+    # file has lost that identity: restore it for equal mapping items of the pattern list
+    pat = doc.get("pattern")
+    if isinstance(pat, list):
+        for i, x in enumerate(pat):
+            if isinstance(x, dict):
+                for j in range(i):
+                    if pat[j] == x:
+                        pat[i] = pat[j]
+                        break
     cfgd = doc.get("config", {}) or {}
     cfg = (bool(cfgd.get("mnemonics-full-match")), bool(cfgd.get("operands-full-match")))
     att = [(a, m, list(o)) for a, m, o in case["listing"]]
